@@ -409,12 +409,15 @@ pub fn mutate(class: &str, lines: &[Line], info: &CleanInfo, ch: &mut Choices) -
         }
         "jump-into-function" => {
             let f = pick_func(info, ch, |f| f.name != "main")?;
-            let at = main.body_start;
+            // the jump stands in main or, as a "tail call", inside another function
+            let host = if ch.chance(1, 2) { Some(main) } else { pick_func(info, ch, |g| g.name != "main" && g.name != f.name) }.unwrap_or(main);
+            let at = host.body_start;
+            let shift = usize::from(at <= f.span.0);
             Some(Mutation {
                 lines: insert(lines, at, vec![ins("j", vec![Opd::L(f.name.clone())])]),
                 expect: "invalid-jump-to-function",
                 // the jump, or the function's label / first instruction
-                accept: vec![at, f.span.0 + 1, f.span.0 + 2],
+                accept: vec![at, f.span.0 + shift, f.span.0 + shift + 1],
                 reg: None,
                 monitor: vec![],
             })
